@@ -5,7 +5,7 @@ import ast
 import json
 import os
 
-from ..cfg import always_raises
+from ..cfg import CFG, always_raises
 from ..const import CallVal, EnumVal, module_const
 from ..core import AnalysisError, calls_in, call_name, const_str, dotted, unparse, walk_no_nested
 from ..isa import load_isa
@@ -489,6 +489,33 @@ def r5_shape_to_mode(ctx: Ctx) -> None:
         ctx.ok("parse_opcode:index=inner", "inner index flows into OpcodeAstNode.index")
     else:
         ctx.fail("parse_opcode:index=inner", f"the index written inside the parentheses ({inner}) never reaches OpcodeAstNode.index")
+    # (d) a trailing index after a shape that has no indexed form is rejected: the mode is looked up in index_map by a raising
+    #     subscript (or a membership / None test that raises); OpcodeNode._get_emitter ignores the index of a non-indexed mode
+    stores = [s for s in walk_no_nested(outer_if) if isinstance(s, ast.Assign) and unparse(s.targets[0]) == "addressing_mode"]
+    if len(stores) != 1:
+        raise AnalysisError("parse_opcode: expected one re-assignment of addressing_mode under the trailing-index test")
+    v = stores[0].value
+    ge = ctx.repo.func(NODES, "OpcodeNode._get_emitter")
+    gg = CFG(ge.node)
+    downstream = False
+    for r in [n for n in walk_no_nested(ge.node) if isinstance(n, ast.Raise)]:
+        conds = gg.path_conditions(gg.node_of(r), ge.node)
+        if any("isinstance" in t and "dict" in t and not pol for t, pol in conds) and (("self.index is None", False) in conds or ("self.index is not None", True) in conds or ("self.index", True) in conds):
+            downstream = True
+    if isinstance(v, ast.Subscript) and unparse(v.value) == "index_map" and unparse(v.slice) == "addressing_mode":
+        ctx.ok("parse_opcode:index-needs-indexed-form", "index_map[addressing_mode] raises for a shape without an indexed form (e.g. `#imm,x`)")
+    elif isinstance(v, ast.Call) and call_name(v) == "index_map.get":
+        raising = [s for s in walk_no_nested(outer_if) if isinstance(s, ast.If) and always_raises(s.body) and ("index_map" in unparse(s.test) or "addressing_mode" in unparse(s.test))]
+        member_guard = any(unparse(x.test) in ("addressing_mode not in index_map", "addressing_mode not in index_map.keys()", "not addressing_mode in index_map") for x in raising)
+        if downstream or member_guard or (raising and (len(v.args) == 1 or unparse(v.args[1]) == "None")):
+            ctx.ok("parse_opcode:index-needs-indexed-form", "a shape without an indexed form is rejected by an explicit check")
+        elif len(v.args) == 2 and unparse(v.args[1]) != "None" and not raising:
+            ctx.fail("parse_opcode:index-needs-indexed-form", f"`{unparse(v)}` keeps the mode of a shape that has no indexed form and OpcodeNode._get_emitter ignores the index of "
+                     "such a mode: `lda #0x10,x` assembles as `lda #0x10`")
+        else:
+            raise AnalysisError(f"parse_opcode: trailing-index lookup `{unparse(v)}` not modelled")
+    else:
+        raise AnalysisError(f"parse_opcode: trailing-index lookup `{unparse(v)[:60]}` not modelled")
 
 
 def _allowed_pairs(test: ast.AST, inner: str, outer: str) -> set[tuple[str, str]] | None:
